@@ -50,7 +50,7 @@ let rec parse_all toks = match toks with [] -> [] | _ -> let (x, r) = parse_sx t
 let prim_names = [
   "+", PAdd; "-", PSub; "*", PMul; "<", PLt; ">", PGt; "<=", PLe; ">=", PGe; "==", PEq; "!=", PNe;
   "not", PNot; "cons", PCons; "first", PFirst; "rest", PRest; "list", PList; "array", PArray;
-  "aget", PAget; "aset", PAset; "append", PAppend; "len", PLen; "map", PMap; "apply", PApply;
+  "aget", PAget; "aset", PAset; "append", PAppend; "len", PLen; "concat", PConcat; "map", PMap; "apply", PApply;
   "trace", PTrace; "failk", PFailK ]
 
 let names : (string, int) Hashtbl.t = Hashtbl.create 64
